@@ -10,7 +10,9 @@ WORKDIR = os.path.join(HERE, '.work-seed')
 # which checks to try per seed: its own property plus properties sharing the touched mechanism
 EXTRA = {'C03a1': ['C07'], 'C07a1': ['C03'], 'C13a1': ['C01', 'C03'], 'C13a2': ['C04'], 'C04a1': ['C13'], 'C06a1': ['C05'], 'C10a2': ['C01'], 'C15a1': ['C12'], 'C16a2': ['C12', 'C02'],
          'C12a1': ['C02'], 'C12a2': ['C02', 'C16'], 'C14a2': ['C13'], 'C09a2': ['C10', 'C07'], 'C10a1': ['C07'], 'C01a2': ['C07'], 'C02a1': ['C16'], 'C16a1': ['C02', 'C01'], 'C01a1': ['C02'],
-         'C05a2': ['C02', 'C08'], 'C08a1': ['C02'], 'C11a2': ['C03'], 'C15a2': ['C13', 'C04']}
+         'C05a2': ['C02', 'C08'], 'C08a1': ['C02'], 'C11a2': ['C03'], 'C15a2': ['C13', 'C04'],
+         'C02b1': ['C13'], 'C02b2': ['C12', 'C16'], 'C07b1': ['C01', 'C03'], 'C07b2': ['C03', 'C01'], 'C13b1': ['C14', 'C01', 'C03'], 'C13b2': ['C04'], 'C10b1': ['C01', 'C07'], 'C10b2': ['C01', 'C07'],
+         'C12b2': ['C02', 'C16'], 'C12b1': ['C02', 'C16']}
 def main():
     claimed = [c['property_id'] for c in json.load(open(os.path.join(HERE, 'MANIFEST.json')))['checks']]
     ids = sys.argv[1:] or sorted(os.listdir(os.path.join(HERE, 'seeded')))
